@@ -476,23 +476,53 @@ fn main() {
         .extra
         .get("parallel")
         .and_then(|s| s.parse().ok())
-        .unwrap_or(args.by_tier(12, 14));
-    let waves: usize = args.extra.get("waves").and_then(|s| s.parse().ok()).unwrap_or(args.by_tier(1, 11));
+        .unwrap_or(args.by_tier(16, 16));
+    let waves: usize = args.extra.get("waves").and_then(|s| s.parse().ok()).unwrap_or(args.by_tier(1, 10));
     // triage aid only (never default): run the scripts with write_block.lua's scan
     // early-exit disabled on the server side, to see what else would fire
     let fixscan = args.extra.get("fixscan").is_some_and(|v| v == "1");
-    let patches: Vec<(String, String)> = if fixscan {
+    let mut patches: Vec<(String, String)> = Vec::new();
+    let mut wb = conform::WRITE_BLOCK.to_string();
+    let mut pl = conform::PROMOTE_LEADER.to_string();
+    if fixscan {
         report.note("TRIAGE MODE: write_block.lua is executed with `stop_scan = true` replaced by `stop_scan = false`");
-        vec![(
-            sha1::sha1_hex(conform::WRITE_BLOCK.as_bytes()),
-            conform::WRITE_BLOCK.replace("stop_scan = true", "stop_scan = false"),
-        )]
-    } else {
-        Vec::new()
-    };
+        wb = wb.replace("stop_scan = true", "stop_scan = false");
+    }
+    // triage aid only: server-side script mutants to measure what the monitor catches
+    if let Some(m) = args.extra.get("mutant") {
+        report.note(format!("TRIAGE MODE: script mutant {m}"));
+        let before = (wb.clone(), pl.clone());
+        match m.as_str() {
+            "no_height_check" => wb = wb.replace("if entry_height == posted_height then", "if false then"),
+            "no_identity_check" => wb = wb.replace("if current_leader ~= ARGV[2] then", "if false then"),
+            "no_fencing_check" => wb = wb.replace("if tonumber(ARGV[1]) < current_token then", "if false then"),
+            "heal_always" => {
+                wb = wb
+                    .replace("if tonumber(ARGV[1]) < current_token then", "if false then")
+                    .replace("if tonumber(ARGV[1]) > current_token then", "if true then")
+            }
+            "no_identity_no_fencing" => {
+                wb = wb
+                    .replace("if current_leader ~= ARGV[2] then", "if false then")
+                    .replace("if tonumber(ARGV[1]) < current_token then", "if false then")
+            }
+            "promote_no_nx" => pl = pl.replace(", \"NX\")", ")"),
+            "promote_decr" => pl = pl.replace("\"INCR\"", "\"DECR\""),
+            _ => report.inconclusive(format!("unknown mutant {m}")),
+        }
+        if before == (wb.clone(), pl.clone()) {
+            report.inconclusive(format!("mutant {m} did not change any script text"));
+        }
+    }
+    if wb != conform::WRITE_BLOCK {
+        patches.push((sha1::sha1_hex(conform::WRITE_BLOCK.as_bytes()), wb));
+    }
+    if pl != conform::PROMOTE_LEADER {
+        patches.push((sha1::sha1_hex(conform::PROMOTE_LEADER.as_bytes()), pl));
+    }
 
     let mut run_args = args.clone();
-    run_args.threads = parallel;
+    run_args.threads = parallel.max(1);
     if let Some(rp) = read_replay(&args) {
         // best effort: same configuration and fault schedule, the interleaving is free
         let shard = rp.get("shard").and_then(|v| v.as_u64()).unwrap_or(0) as usize;
@@ -533,24 +563,45 @@ fn main() {
         let args2 = args.clone();
         let handle2 = handle.clone();
         let patches2 = patches.clone();
-        run_shards(&report, &run_args, n_scenarios + n_universes, move |shard, _shard_seed| {
-            let result = if shard < n_scenarios {
-                let name = scenario::SCENARIOS[shard % scenario::SCENARIOS.len()];
-                let mut cfg = scenario::scenario_cfg(args2.seed, shard, name);
-                cfg.script_patches = patches2.clone();
-                run_scenario(cfg, name, &handle2)
-            } else {
-                let mut cfg = universe::gen_cfg(args2.seed, shard, duration_ms);
-                cfg.script_patches = patches2.clone();
-                run_universe(cfg, &handle2, &report2)
-            };
-            match result {
+        // phase 1: the directed scenarios (short), on their own so that their timing is not
+        // disturbed by the random universes; an aborted scenario is retried once
+        let (r2, a2, h2, p2) = (report.clone(), args.clone(), handle.clone(), patches.clone());
+        run_args.threads = 12;
+        run_shards(&report, &run_args, n_scenarios, move |shard, _shard_seed| {
+            let name = scenario::SCENARIOS[shard % scenario::SCENARIOS.len()];
+            for attempt in 0..2usize {
+                let mut cfg = scenario::scenario_cfg(a2.seed, shard + attempt * 100_000, name);
+                cfg.shard = shard;
+                cfg.script_patches = p2.clone();
+                match run_scenario(cfg, name, &h2) {
+                    Ok(o) => {
+                        let completed = o.applied.first().and_then(|a| a.get("completed")).and_then(|c| c.as_bool()).unwrap_or(false);
+                        if !o.verdict.findings.is_empty() || a2.extra.contains_key("keep-logs") {
+                            write_debug_log(&a2, &o);
+                        }
+                        report_outcome(&r2, &a2, &o);
+                        r2.count("scenario.shards_run");
+                        if completed {
+                            break;
+                        }
+                    }
+                    Err(e) => r2.inconclusive(format!("shard {shard}: scenario setup failed: {e}")),
+                }
+            }
+        });
+        // phase 2: the random universes
+        run_args.threads = parallel.max(1);
+        run_shards(&report, &run_args, n_universes, move |i, _shard_seed| {
+            let shard = n_scenarios + i;
+            let mut cfg = universe::gen_cfg(args2.seed, shard, duration_ms);
+            cfg.script_patches = patches2.clone();
+            match run_universe(cfg, &handle2, &report2) {
                 Ok(o) => {
                     if !o.verdict.findings.is_empty() || args2.extra.contains_key("keep-logs") {
                         write_debug_log(&args2, &o);
                     }
                     report_outcome(&report2, &args2, &o);
-                    report2.count(if shard < n_scenarios { "scenario.shards_run" } else { "universe.completed" });
+                    report2.count("universe.completed");
                 }
                 Err(e) => report2.inconclusive(format!("shard {shard}: universe setup failed: {e}")),
             }
